@@ -21,8 +21,8 @@ def ALL(names, sel='all'):
 
 def build_props(PROPS):
     PROPS['C01'] = dict(
-        level='proof', quick=ALL(E_HOST + ['eav_setup', 'eav_is_email']),
-        thorough=ALL(E_LIT + ['email_6531_host@idn', 'email_6531_host@idnkit', 'eav_setup@idn', 'eav_setup@idnkit']),
+        level='proof', quick=ALL(E_HOST + E_LIT + ['eav_setup', 'eav_is_email']),
+        thorough=ALL(['email_6531_host@idn', 'email_6531_host@idnkit', 'eav_setup@idn', 'eav_setup@idnkit']),
         level_text='Each is_<mode>_email is proved, for every NUL-terminated input of every length, to split at the index strrchr returns for "@", to reject the empty / no-"@" / empty-domain / >64-octet cases without calling a validator, and otherwise to call exactly the local-part validator of its own mode on L and the domain validator on D and to return their composition; eav_setup is proved to install the callbacks of the mode chosen, eav_is_email to call exactly that callback. The validators themselves are proved in C02-C05.',
         level_note='Modular: callees are replaced by recording contracts whose result ranges are proved in their own jobs. Assumed: strrchr returns the last occurrence (A3), no interior NUL (premise of the property), malloc succeeds (A2).',
         trusted_base=TB_COMMON, technique=TECH)
